@@ -258,11 +258,20 @@ pub struct FaultyWriter<'a> {
     just_interrupted: bool,
     pub fired: Fired,
     pub flushes: u64,
+    /// Simulated device size. A `write` that would push the sink beyond it gets a hard error and
+    /// sets `overflow`: code that re-sends accepted bytes in a retry loop (a livelock on a real
+    /// device) must end the run as a reportable outcome instead of growing the sink without bound.
+    cap: usize,
+    pub overflow: bool,
 }
 
 impl<'a> FaultyWriter<'a> {
     pub fn new(sched: &'a Sched) -> Self {
-        Self { sink: vec![], sched, fail_at: None, call: 0, just_interrupted: false, fired: Fired::default(), flushes: 0 }
+        Self { sink: vec![], sched, fail_at: None, call: 0, just_interrupted: false, fired: Fired::default(), flushes: 0, cap: usize::MAX, overflow: false }
+    }
+    pub fn capped(mut self, cap: usize) -> Self {
+        self.cap = cap;
+        self
     }
     pub fn failing(mut self, p: usize, f: WFail) -> Self {
         self.fail_at = Some((p, f));
@@ -308,6 +317,10 @@ impl Write for FaultyWriter<'_> {
                 n = k;
                 self.fired.short += 1;
             }
+        }
+        if self.overflow || self.sink.len().saturating_add(n) > self.cap {
+            self.overflow = true;
+            return Err(io::Error::new(ErrorKind::Other, "simulated device is full (harness cap on the sink)"));
         }
         self.sink.extend_from_slice(&buf[..n]);
         Ok(n)
